@@ -12,6 +12,7 @@ macro_rules! dec_p {
         #[kani::proof]
         #[kani::unwind($uw)]
         #[kani::stub(std::fmt::format, fmt_stub)]
+        #[kani::stub(<cfdp_core::pdu::MetadataTLVFieldCode as std::fmt::Display>::fmt, tlv_code_display_stub)]
         #[kani::stub(core::str::from_utf8, str_from_utf8_stub)]
         fn $name() {
             let b: [u8; $n] = kani::any();
@@ -44,6 +45,7 @@ macro_rules! dec_f {
         #[kani::proof]
         #[kani::unwind($uw)]
         #[kani::stub(std::fmt::format, fmt_stub)]
+        #[kani::stub(<cfdp_core::pdu::MetadataTLVFieldCode as std::fmt::Display>::fmt, tlv_code_display_stub)]
         #[kani::stub(core::str::from_utf8, str_from_utf8_stub)]
         fn $name() {
             let b: [u8; $n] = kani::any();
@@ -78,6 +80,7 @@ macro_rules! np_p {
         #[kani::proof]
         #[kani::unwind($uw)]
         #[kani::stub(std::fmt::format, fmt_stub)]
+        #[kani::stub(<cfdp_core::pdu::MetadataTLVFieldCode as std::fmt::Display>::fmt, tlv_code_display_stub)]
         #[kani::stub(core::str::from_utf8, str_from_utf8_stub)]
         fn $name() {
             let b: [u8; $n] = kani::any();
@@ -95,6 +98,7 @@ macro_rules! np_f {
         #[kani::proof]
         #[kani::unwind($uw)]
         #[kani::stub(std::fmt::format, fmt_stub)]
+        #[kani::stub(<cfdp_core::pdu::MetadataTLVFieldCode as std::fmt::Display>::fmt, tlv_code_display_stub)]
         #[kani::stub(core::str::from_utf8, str_from_utf8_stub)]
         fn $name() {
             let b: [u8; $n] = kani::any();
@@ -157,6 +161,7 @@ np_p!(c06_q_np_uo_sfo_report, SFOReport, 14, 17);
 #[kani::proof]
 #[kani::unwind(14)]
 #[kani::stub(std::fmt::format, fmt_stub)]
+#[kani::stub(<cfdp_core::pdu::MetadataTLVFieldCode as std::fmt::Display>::fmt, tlv_code_display_stub)]
 fn c06_q_np_report() {
     let b: [u8; 12] = kani::any();
     let n: usize = kani::any();
@@ -187,6 +192,7 @@ macro_rules! np_uo {
         #[kani::proof]
         #[kani::unwind($uw)]
         #[kani::stub(std::fmt::format, fmt_stub)]
+        #[kani::stub(<cfdp_core::pdu::MetadataTLVFieldCode as std::fmt::Display>::fmt, tlv_code_display_stub)]
         #[kani::stub(core::str::from_utf8, str_from_utf8_stub)]
         fn $name() {
             $( userop_case::<$n>($t); )*
@@ -207,6 +213,7 @@ np_uo!(c06_q_np_userop_40_46, 10, 13, [0x40, 0x41, 0x42, 0x43, 0x44, 0x45, 0x46]
 #[kani::proof]
 #[kani::unwind(8)]
 #[kani::stub(std::fmt::format, fmt_stub)]
+#[kani::stub(<cfdp_core::pdu::MetadataTLVFieldCode as std::fmt::Display>::fmt, tlv_code_display_stub)]
 fn c06_q_np_userop_reject() {
     let b: [u8; 5] = kani::any();
     let t = b[4];
@@ -235,6 +242,7 @@ fn operations_case<const N: usize>(d: u8) {
 #[kani::proof]
 #[kani::unwind(14)]
 #[kani::stub(std::fmt::format, fmt_stub)]
+#[kani::stub(<cfdp_core::pdu::MetadataTLVFieldCode as std::fmt::Display>::fmt, tlv_code_display_stub)]
 fn c06_q_np_operations() {
     operations_case::<12>(0x04);
     operations_case::<4>(0x06);
@@ -323,6 +331,7 @@ where
 #[kani::proof]
 #[kani::unwind(8)]
 #[kani::stub(std::fmt::format, fmt_stub)]
+#[kani::stub(<cfdp_core::pdu::MetadataTLVFieldCode as std::fmt::Display>::fmt, tlv_code_display_stub)]
 #[kani::stub(core::str::from_utf8, str_from_utf8_stub)]
 fn c06_q_shape_filestore() {
     for (l1, l2) in [(0usize, 0usize), (1, 3), (3, 1)] {
@@ -334,6 +343,7 @@ fn c06_q_shape_filestore() {
 #[kani::proof]
 #[kani::unwind(14)]
 #[kani::stub(std::fmt::format, fmt_stub)]
+#[kani::stub(<cfdp_core::pdu::MetadataTLVFieldCode as std::fmt::Display>::fmt, tlv_code_display_stub)]
 #[kani::stub(core::str::from_utf8, str_from_utf8_stub)]
 fn c06_q_shape_finished() {
     let mut k = 0;
@@ -357,6 +367,7 @@ fn c06_q_shape_finished() {
 #[kani::proof]
 #[kani::unwind(12)]
 #[kani::stub(std::fmt::format, fmt_stub)]
+#[kani::stub(<cfdp_core::pdu::MetadataTLVFieldCode as std::fmt::Display>::fmt, tlv_code_display_stub)]
 #[kani::stub(core::str::from_utf8, str_from_utf8_stub)]
 fn c06_q_shape_metadata() {
     let flag = gen::fss();
@@ -407,6 +418,7 @@ fn nak_case<const N: usize>(flag: FileSizeFlag) {
 #[kani::proof]
 #[kani::unwind(36)]
 #[kani::stub(std::fmt::format, fmt_stub)]
+#[kani::stub(<cfdp_core::pdu::MetadataTLVFieldCode as std::fmt::Display>::fmt, tlv_code_display_stub)]
 fn c06_q_canon_nak() {
     nak_case::<0>(FileSizeFlag::Small);
     nak_case::<7>(FileSizeFlag::Small);
